@@ -197,7 +197,7 @@ def run(chk):
     # ... and the programs with a select-list subquery once more with that subquery elsewhere in the item: ELSE / THEN branch of a
     # CASE, argument of a function, argument of a function inside an expression
     rnd_ = random.Random(chk.seed + 11)
-    nested = [dict(c, isub_form=rnd_.choice(["else", "then", "func", "func_in_expr"])) for c in cases if any(e["e"] == "isub" for e in c["prog"])]
+    nested = [dict(c, isub_form=rnd_.choice(["else", "then", "func", "func_in_expr", "paren2", "cond"])) for c in cases if any(e["e"] == "isub" for e in c["prog"])]
     if quick:
         rnd_.shuffle(nested)
         nested = nested[:1500]
